@@ -185,8 +185,42 @@ func ruleParseBodyTotal(w *World, r *Run, ruleB, ruleD string) {
 					retained = "stored"
 				}
 			}
-			for _, f := range s.Facts {
-				_ = f
+			// typestate: the view dies at the next read on the same reader; any use of it after that (including the copying
+			// conversion string(line) evaluated only then) reads bytes that may have been overwritten
+			nextRead := 0
+			for _, ev := range s.Events {
+				if ev.Kind != "call" || ev.Seq <= rl.Seq {
+					continue
+				}
+				readsIt := (ev.Recv == rl.Recv && strings.HasPrefix(ev.Callee, "(*bufio.Reader).") && !strings.HasSuffix(ev.Callee, ".Buffered") && !strings.HasSuffix(ev.Callee, ".Size"))
+				for _, a0 := range ev.Args {
+					if a0 == rl.Recv && (ev.Callee == "io.ReadAll" || ev.Callee == "io.Copy" || ev.Callee == "io.ReadFull") {
+						readsIt = true
+					}
+				}
+				if readsIt {
+					nextRead = ev.Seq
+					break
+				}
+			}
+			if nextRead > 0 {
+				for _, ev := range s.Events {
+					if ev.Seq <= nextRead {
+						continue
+					}
+					used := false
+					for _, a0 := range ev.Args {
+						if a0 != nil && rawMention(a0, line) {
+							used = true
+						}
+					}
+					if ev.Recv != nil && rawMention(ev.Recv, line) {
+						used = true
+					}
+					if used && calleePkg(ev.Callee) != "k8s.io/klog/v2" {
+						retained = "used after the next read on the same reader (" + ev.Kind + " " + short(ev.Callee) + ")"
+					}
+				}
 			}
 			// appended raw into a slice that lives on
 			for _, ev := range s.Events {
